@@ -131,7 +131,7 @@ impl Datagrams {
 //@fn iroh-relay/src/protos/relay.rs Datagrams::encoded_len props=C10 ret=r
 //@| requires self.contents@.len() <= 0x1000_0000
 //@| ensures r == enc_dg(*self).len()
-//@rw R1 1
+//@rw R1 *
 //@- .map_or(0, |_| 2)
 //@+ .map_or(0, |_w: NonZeroU16| -> (o: usize) ensures o == 2 { 2 })
 //@end
@@ -250,7 +250,7 @@ impl RelayToClientMsg {
 //@rwx R12 1
 //@- u32::from_be_bytes\(\s*content\[4\.\.\]\s*\.try_into\(\)
 //@+ u32_from_be_bytes(slice_try_into_arr::<4>(bytes_suffix(&content, 4))
-//@rwx R1 2
+//@rwx R1 *
 //@- \.map_err\(\|_\| e!
 //@+ .map_err(|_w| e!
 //@end
